@@ -7,7 +7,7 @@
 (* upstream regression input.                                                 *)
 EXTENDS Naturals, Sequences, FiniteSets, TLC, Json
 
-CONSTANTS ParamRows, ResultRows, CRows, CResults, LuaRows, MaxFuncs, MaxParams
+CONSTANTS ParamRows, ResultRows, CRows, CResults, LuaRows, PyRows, MaxFuncs, MaxParams
 
 VARIABLES lib, done, kind
 
@@ -38,9 +38,12 @@ AllParamLists == ParamLists(MaxParams) \cup {<<a[1], a[2]>> : a \in ArrayPairs}
 SetLanguage(l) == /\ ~done /\ lib.funcs = <<>> /\ ~lib.class /\ ~lib.ns /\ lib' = [lib EXCEPT !.language = l] /\ UNCHANGED done
 LuaList(ps) == \A k \in 1..Len(ps) : ps[k] \in LuaRows
 LuaOK == \A i \in 1..Len(lib.funcs) : LuaList(lib.funcs[i].params)
+\* the corpus switches the Python wrapper off for a std::vector argument of intent(inout) (vectors.yaml)
+PyList(ps) == \A k \in 1..Len(ps) : ps[k] \in PyRows
+PyOK == \A i \in 1..Len(lib.funcs) : PyList(lib.funcs[i].params)
 AddFunction(res, ps) ==
   /\ ~done /\ Len(lib.funcs) < MaxFuncs
-  /\ (lib.opts.wrap_lua => LuaList(ps))
+  /\ (lib.opts.wrap_lua => LuaList(ps)) /\ (lib.opts.wrap_python => PyList(ps))
   /\ ResOK(res) /\ \A i \in 1..Len(ps) : RowOK(ps[i])
   /\ lib' = [lib EXCEPT !.funcs = Append(@, [kind |-> "plain", result |-> res, params |-> ps, ndef |-> 0])]
   /\ UNCHANGED done
@@ -56,7 +59,7 @@ AddDefaults(i, n) ==
 \* an overload of an existing function: same name, another parameter list, same kind of result
 AddOverload(i, ps) ==
   /\ ~done /\ lib.language = "c++" /\ i \in 1..Len(lib.funcs) /\ Len(lib.funcs) < MaxFuncs
-  /\ (lib.opts.wrap_lua => LuaList(ps))
+  /\ (lib.opts.wrap_lua => LuaList(ps)) /\ (lib.opts.wrap_python => PyList(ps))
   /\ lib.funcs[i].kind = "plain" /\ lib.funcs[i].ndef = 0 /\ ps # lib.funcs[i].params
   /\ \A j \in 1..Len(lib.funcs) : (lib.funcs[j].kind = "overload" /\ lib.funcs[j].of = i) => lib.funcs[j].params # ps
   \* Fortran resolves a generic name by the arguments' types, kinds and ranks only: keep every pair of
@@ -71,7 +74,7 @@ AddClass == /\ ~done /\ lib.language = "c++" /\ ~lib.class /\ lib' = [lib EXCEPT
 UseNamespace == /\ ~done /\ lib.language = "c++" /\ ~lib.ns /\ lib' = [lib EXCEPT !.ns = TRUE] /\ UNCHANGED done
 \* docs/lua.rst and the Lua inputs of the corpus cover arguments passed by value and std::string
 \* references only: the Lua wrapper is selected for such libraries only
-SetOption(k, v) == /\ ~done /\ ((k = "wrap_lua" /\ v = TRUE) => LuaOK)
+SetOption(k, v) == /\ ~done /\ ((k = "wrap_lua" /\ v = TRUE) => LuaOK) /\ ((k = "wrap_python" /\ v = TRUE) => PyOK)
                    /\ lib' = [lib EXCEPT !.opts[k] = v] /\ UNCHANGED done
 \* the Fortran wrapper calls the C wrapper; at least one wrapper is selected
 Finish == /\ ~done /\ lib.funcs # <<>> /\ done' = TRUE
@@ -111,7 +114,7 @@ Spec == Init /\ [][Next]_<<lib, done, kind>>
 
 \* sanity of the domain itself
 TypeOK == /\ Len(lib.funcs) <= MaxFuncs
-          /\ (lib.opts.wrap_lua => LuaOK)
+          /\ (lib.opts.wrap_lua => LuaOK) /\ (lib.opts.wrap_python => PyOK)
           /\ \A i \in 1..Len(lib.funcs) : lib.funcs[i].ndef <= Len(lib.funcs[i].params)
           /\ (lib.language = "c" => (~lib.class /\ ~lib.ns /\ \A i \in 1..Len(lib.funcs) : lib.funcs[i].kind = "plain" /\ lib.funcs[i].ndef = 0))
 =============================================================================
